@@ -21,9 +21,19 @@ Loader kinds:
   choice   ChoiceLoader([DictLoader(store0), DictLoader(store1)])
   dict2    two separate DictLoaders; the operation `use(i)` assigns
            env.loader = loader_i (the cache key contains the loader)
+  overlay  DictLoader; the operation `overlay` (once per history, before or
+           after the parent loaded anything) replaces the environment under
+           test by parent.overlay() without an explicit cache_size: the
+           overlay starts with an EMPTY cache of the parent's configuration
+           (docs: Environment.overlay "Create a new overlay environment that
+           shares all the data with the current environment except for cache
+           and the overridden attributes")
 
 The source text of name n, version v in store j is n+str(v) (store 0) or
 n.upper()+str(v) (store 1), so a render shows name, version and origin.
+Version 0 is the EMPTY source "" (a legal template that renders to ""); it is
+used in every kind except `choice`, whose canonical state needs the origin
+that an empty text cannot show.
 """
 from __future__ import annotations
 
@@ -40,7 +50,7 @@ META = {
     "technique": "explicit-state BFS by history replay over the real Environment/loader/template cache in lock-step "
     "with a reference cache model (OrderedDict LRU + loader contents + up-to-date predicate), to a fixpoint per "
     "configuration, plus dedup-free enumeration of all short histories",
-    "text": "For each configuration (6 loader kinds x cache_size 0/1/2/-1 x auto_reload on/off) every enabled operation "
+    "text": "For each configuration (7 loader kinds incl. Environment.overlay x cache_size 0/1/2/-1 x auto_reload on/off) every enabled operation "
     "of get / select / modify / delete / add (/ use-loader) is executed on every reachable canonical state (loader "
     "contents, cache keys in recency order with the text and freshness each cached template holds) and compared with "
     "the reference: rendered text or TemplateNotFound, number of Environment.compile calls, cache keys/order/content, "
@@ -52,13 +62,15 @@ META = {
     "design_ref": "DESIGN.md §4 C25, §3 E2, R-tcache",
 }
 
-KINDS = ("dict", "fstr", "ftriple", "fs", "choice", "dict2")
-NSTORES = {"dict": 1, "fstr": 1, "ftriple": 1, "fs": 1, "choice": 2, "dict2": 2}
-HAS_UPTODATE = {"dict": True, "fstr": False, "ftriple": True, "fs": True, "choice": True, "dict2": True}
+KINDS = ("dict", "fstr", "ftriple", "fs", "choice", "dict2", "overlay")
+NSTORES = {"dict": 1, "fstr": 1, "ftriple": 1, "fs": 1, "choice": 2, "dict2": 2, "overlay": 1}
+HAS_UPTODATE = {"dict": True, "fstr": False, "ftriple": True, "fs": True, "choice": True, "dict2": True, "overlay": True}
 STAMPED = {"ftriple", "fs"}  # freshness = stamp comparison; otherwise source-text comparison
 
 
 def text(j, n, v):
+    if v == 0:
+        return ""  # the empty template
     return (n if j == 0 else n.upper()) + str(v)
 
 
@@ -79,6 +91,7 @@ class Model:
         self.stores = [dict() for _ in range(NSTORES[kind])]  # name -> (version, stamp)
         self.clock = 0
         self.active = 0  # dict2: which loader env.loader is
+        self.overlaid = False  # overlay: the environment under test is parent.overlay()
         # cache: key (loader index, name) -> (text, origin store, stamp); least recently used first
         self.cache = collections.OrderedDict()
         self.compiles = 0
@@ -162,7 +175,7 @@ class Model:
             items = [(k[0], k[1], e[0], self.fresh(k, e)) for k, e in self.cache.items()]
             # most recently used first, like LRUCache.items(); the unbounded cache has no order
             cache = tuple(reversed(items)) if self.size > 0 else tuple(sorted(items, key=repr))
-        return (stores, self.active, cache)
+        return (stores, (self.active, self.overlaid), cache)
 
 
 def model_step(m: Model, op):
@@ -185,6 +198,11 @@ def model_step(m: Model, op):
         return None
     if kind == "use":
         m.active = op[1]
+        return None
+    if kind == "overlay":
+        # "shares all the data with the current environment except for cache": same size, same auto_reload, empty
+        m.overlaid = True
+        m.cache = collections.OrderedDict()
         return None
     raise AssertionError(op)
 
@@ -212,6 +230,8 @@ def enabled_ops(m: Model, names, versions):
                         ops.append(("add", j, n, v, "older"))
     if m.kind == "dict2":
         ops.append(("use", 1 - m.active))
+    if m.kind == "overlay" and not m.overlaid:
+        ops.append(("overlay",))
     return ops
 
 
@@ -278,7 +298,7 @@ class Impl:
         self.names = names
         self.stores = [dict() for _ in range(NSTORES[kind])]
         self.gen = 0
-        if kind == "dict":
+        if kind in ("dict", "overlay"):
             self.loaders = [jinja2.DictLoader(self.stores[0])]
         elif kind == "fstr":
             st = self.stores[0]
@@ -304,6 +324,7 @@ class Impl:
         else:
             raise AssertionError(kind)
         self.env = CountingEnv(loader=self.loaders[0], cache_size=size, auto_reload=auto_reload)
+        self.parent = None
 
     def put(self, j, n, v, older=False):
         src = text(j, n, v)
@@ -344,10 +365,8 @@ class Impl:
     def canon(self):
         env = self.env
         active = self.loaders.index(env.loader) if env.loader in self.loaders else "?"
-        if self.size == 0:
-            if env.cache is not None:
-                raise core.HarnessError("cache_size=0 but env.cache is not None")
-            cache = None
+        if env.cache is None:
+            cache = None  # the model says None exactly for cache_size=0
         else:
             items = []
             for key, tmpl in env.cache.items():
@@ -358,7 +377,7 @@ class Impl:
                     li, name = "?", repr(key)
                 items.append((li, name, _total(tmpl.render), _total(lambda: bool(tmpl.is_up_to_date))))
             cache = tuple(items) if self.size > 0 else tuple(sorted(items, key=repr))
-        return (self.contents(), active, cache)
+        return (self.contents(), (active, self.parent is not None), cache)
 
 
 def impl_step(im: Impl, op):
@@ -391,6 +410,11 @@ def impl_step(im: Impl, op):
     if kind == "use":
         env.loader = im.loaders[op[1]]
         return None
+    if kind == "overlay":
+        def f():
+            im.parent = env
+            im.env = env.overlay()
+        return _total(f)
     raise AssertionError(op)
 
 
@@ -420,7 +444,7 @@ def step(s, op):
     mobs = model_step(m, op)
     if op[0] in ("get", "select"):
         # invariant: a cache of size n never holds more than n templates
-        if m.size > 0 and len(im.env.cache) > m.size:
+        if m.size > 0 and im.env.cache is not None and len(im.env.cache) > m.size:
             iobs = iobs + ("len(cache)=%d > %d" % (len(im.env.cache), m.size),)
         # the property, stated without the cache model: auto_reload + up-to-date check => current source
         if m.auto_reload and HAS_UPTODATE[m.kind] and iobs[:2] != want:
@@ -462,7 +486,7 @@ def ops_of(s):
 def plain_script(cfg, hist):
     kind, size, auto_reload, names, versions = cfg
     L = ["import os, jinja2"]
-    if kind == "dict":
+    if kind in ("dict", "overlay"):
         L += ["s0 = {}", "loaders = [jinja2.DictLoader(s0)]"]
     elif kind == "fstr":
         L += ["s0 = {}", "loaders = [jinja2.FunctionLoader(lambda name: s0.get(name))]"]
@@ -515,6 +539,8 @@ def plain_script(cfg, hist):
                 L.append(f"del s{op[1]}[{op[2]!r}]")
         elif op[0] == "use":
             L.append(f"env.loader = loaders[{op[1]}]")
+        elif op[0] == "overlay":
+            L.append("parent = env; env = parent.overlay()  # no explicit cache_size: an empty cache like the parent's")
     if kind == "fs":
         L.append("import shutil; shutil.rmtree(d)")
     return "\n".join(L) + "\n"
@@ -708,17 +734,25 @@ def configurations(quick):
     """(kind, cache_size, auto_reload, names, versions); bounds chosen from measured state counts (see run())"""
     plan = []  # (kind, sizes, names, versions)
     if quick:
-        for kind in ("dict", "fstr", "ftriple", "fs"):
-            plan.append((kind, SIZES, AB, (1, 2)))
+        for kind in ("dict", "fstr", "ftriple"):
+            plan.append((kind, SIZES, AB, (0, 1, 2)))  # version 0 = the empty template
+        plan.append(("fs", SIZES, AB, (1, 2)))
+        plan.append(("fs", (0, 1), AB, (0, 1)))
+        plan.append(("overlay", SIZES, AB, (1, 2)))
         plan.append(("choice", (0, 1), AB, (1, 2)))
         plan.append(("choice", (2, -1), AB, (1,)))
-        plan.append(("dict2", (0,), AB, (1, 2)))
+        plan.append(("dict2", (0,), AB, (0, 1, 2)))
         plan.append(("dict2", (1, 2, -1), AB, (1,)))  # 4 cache keys: size 2 evicts
     else:
         for kind in ("dict", "fstr", "ftriple"):
             plan.append((kind, SIZES, ABC, (1, 2, 3)))
         plan.append(("fs", SIZES, ABC, (1, 2)))
         plan.append(("fs", SIZES, AB, (1, 2, 3)))
+        for kind in ("dict", "fstr", "ftriple", "fs"):
+            plan.append((kind, SIZES, AB, (0, 1, 2)))  # version 0 = the empty template
+        plan.append(("dict2", (0, 1), AB, (0, 1)))
+        plan.append(("overlay", SIZES, ABC, (1, 2)))
+        plan.append(("overlay", SIZES, AB, (0, 1, 2)))
         plan.append(("choice", SIZES, AB, (1, 2, 3)))
         plan.append(("choice", (0, 1), ABC, (1, 2)))
         plan.append(("dict2", SIZES, AB, (1, 2)))
